@@ -730,7 +730,59 @@ func (c *Ctx) callEffect(info *types.Info, call *ast.CallExpr) string {
 		}
 		return ""
 	case *types.Var:
+		// a function-typed parameter of the enclosing function: read-only if every static caller hands in a read-only function
+		if why, decided := c.paramFuncEffect(o); decided {
+			if why == "" {
+				return ""
+			}
+			return "calls the function value " + o.Name() + " per element, and a caller passes a function that is not read-only (" + why + ")"
+		}
 		return "calls the function value " + o.Name() + " per element"
 	}
 	return "calls an unresolved function per element"
+}
+
+
+// paramFuncEffect: o is a func-typed parameter of some generator function F; decided=true when every static call site of F in
+// the generator packages passes a function literal or named function for it — why is "" when all of them are read-only.
+func (c *Ctx) paramFuncEffect(o *types.Var) (why string, decided bool) {
+	var owner *ssa.Function
+	idx := -1
+	for _, fn := range c.W.FuncsIn(isGeneratorPkg) {
+		for i, p := range fn.Params {
+			if p.Object() == types.Object(o) {
+				owner, idx = fn, i
+			}
+		}
+	}
+	if owner == nil {
+		return "", false
+	}
+	n := 0
+	for _, fn := range c.W.FuncsIn(isGeneratorPkg) {
+		for _, call := range an.CallsIn(fn, func(_ ssa.CallInstruction, ci an.CalleeInfo) bool { return ci.Static == owner }) {
+			n++
+			args := call.Common().Args
+			if idx >= len(args) {
+				return "", false
+			}
+			var target *ssa.Function
+			switch x := an.Strip(args[idx]).(type) {
+			case *ssa.MakeClosure:
+				target, _ = x.Fn.(*ssa.Function)
+			case *ssa.Function:
+				target = x
+			}
+			if target == nil {
+				return "", false
+			}
+			if w := c.readOnly(target, 0); w != "" {
+				return shortFn(target) + ": " + w, true
+			}
+		}
+	}
+	if n == 0 {
+		return "", false
+	}
+	return "", true
 }
